@@ -438,6 +438,8 @@ theorem pushNone_appends : ∀ (b b' : B), WFB b → Safe b → pushNone b = .ok
     rwa [rowOf_false_of_isSome hs] at this
   | .dictionary p idx vals index, b', hwf, hsafe, h => by
     simp only [pushNone, ctx_ok] at h
+    split at h
+    · simp [fail] at h
     obtain ⟨idx', h1, h2⟩ := (bind_ok _ _ _).1 h
     cases h2
     have hw' := hwf
